@@ -76,6 +76,14 @@ CLAIMED.update({
             "§3 C16"),
 })
 
+CLAIMED.update({
+    "C10": ("fault_enumeration",
+            "enumeration of guard boundaries: a declarative table of 87 guarded entry points x boundary letters (index = size-1, size, size+1, UINT_MAX; shapes equal / transposed / off by one; table lengths 0..4; x at 0.99 % and 1.01 % of the edge interval outside both domain ends; parameters on both sides of every range test), one request per child process under ASan+UBSan",
+            "For every listed request the side of the guard is stated in the table and the child's observable outcome is classified (returned / exit with failure status and non-empty diagnostic / sanitizer report / signal / timeout): rejected side must produce exactly the diagnostic exit, accepted side must return. Running each request in its own sanitized process turns 'reads or writes out of bounds' into an outcome instead of a plausible number.",
+            "The table is hand-written from the property's anchors (980 requests); entry points not named there (Configuration, terminal output helpers, Logger) are not covered. The exact 1 % point of the extrapolation tolerance is not probed (rounding decides its side).",
+            "§3 C10"),
+})
+
 NOT_APPLICABLE = {
 }
 
